@@ -110,6 +110,8 @@ class Driver(GenericAdapter):
                 v.append("dict")
                 if self.strkeys and n in ("update", "ctor", "update_extend"):
                     v.append("kw")
+                    if len(op["arg"]) >= 2:
+                        v.append("pairs+kw")        # one call mixing the forms: leading pairs positionally, the rest as keywords
             return v
         if n == "copy":
             return [a + b for a in ("method", "copy", "deepcopy", "pickle2", "pickleH") for b in ("/src", "/copy")]
@@ -152,6 +154,9 @@ class Driver(GenericAdapter):
                 f = getattr(o, n)
                 if variant == "kw":
                     f((), **dict(self.pairs(op["arg"])))
+                elif variant == "pairs+kw":
+                    ps_ = self.pairs(op["arg"])
+                    f(ps_[:len(ps_) // 2], **dict(ps_[len(ps_) // 2:]))
                 else:
                     f(self.argform(op["arg"], variant or "pairs"))
             elif n == "ior":
@@ -166,6 +171,9 @@ class Driver(GenericAdapter):
             elif n == "ctor":
                 if variant == "kw":
                     o = self.cls(**dict(self.pairs(op["arg"])))
+                elif variant == "pairs+kw":
+                    ps_ = self.pairs(op["arg"])
+                    o = self.cls(ps_[:len(ps_) // 2], **dict(ps_[len(ps_) // 2:]))
                 else:
                     o = self.cls(self.argform(op["arg"], variant or "pairs"))
             elif n == "setdefault":
